@@ -218,6 +218,10 @@ func renderSet(r *rand.Rand, s []int, lo, hi int, names []string, shift int) str
 		parts = append(parts, item(s[i]))
 		i++
 	}
+	if r.Intn(5) == 0 {
+		// the parser keeps duplicates: repeat a member, or let two ranges overlap in one value
+		parts = append(parts, parts[r.Intn(len(parts))])
+	}
 	if r.Intn(4) == 0 {
 		r.Shuffle(len(parts), func(a, b int) { parts[a], parts[b] = parts[b], parts[a] })
 	}
@@ -450,6 +454,16 @@ func boundaryPrev(r *rand.Rand, off int) (int64, string) {
 	default:
 		t = time.Unix(r.Int63n(9223372036), 0).UTC()
 		class = "uniform"
+	}
+	if r.Intn(12) == 0 {
+		// century years (leap rule exceptions): any day of January..March and the year's end
+		cy := []int{2000, 2100, 2200}[r.Intn(3)]
+		if r.Intn(4) == 0 {
+			t = time.Date(cy-1, 12, 25+r.Intn(7), r.Intn(24), r.Intn(60), r.Intn(60), 0, time.UTC)
+		} else {
+			t = time.Date(cy, time.Month(1+r.Intn(3)), 1+r.Intn(28), r.Intn(24), r.Intn(60), r.Intn(60), 0, time.UTC)
+		}
+		class = "century-year"
 	}
 	sec := t.Unix() - int64(off) + int64(r.Intn(3)-1)
 	if sec < 0 {
@@ -708,6 +722,18 @@ func runZone(seed int64, from, to int, names []string) {
 		z := zs[i%len(zs)]
 		e := genExpr(r, true)
 		e.year = nil
+		if r.Intn(10) == 0 {
+			// dense schedules: every second / every few seconds all day, so that a gap or a skipped day
+			// removes thousands of consecutive matching readings
+			e.sec, e.min, e.hour, e.month = nil, nil, nil, nil
+			if r.Intn(2) == 0 {
+				st := []int{5, 7, 20}[r.Intn(3)]
+				for v := 0; v < 60; v += st {
+					e.sec = append(e.sec, v)
+				}
+			}
+			e.day = dayRule{}
+		}
 		ex := e.render(r)
 		tr, err := quartz.NewCronTriggerWithLoc(ex, z.loc)
 		if err != nil {
@@ -722,6 +748,16 @@ func runZone(seed int64, from, to int, names []string) {
 		for k, t := range z.trans {
 			if t > 0 && t < 7258118400 {
 				cand = append(cand, k)
+				before := z.off0
+				if k > 0 {
+					before = z.offs[k-1]
+				}
+				if d := z.offs[k] - before; d != 3600 && d != -3600 && d != 0 {
+					// unusual shifts (30 min, 2 h, 3 h, a whole day) are rare in the tables: weight them up
+					for w := 0; w < 25; w++ {
+						cand = append(cand, k)
+					}
+				}
 			}
 		}
 		if len(cand) > 0 && r.Intn(8) != 0 {
